@@ -910,6 +910,13 @@ class _Simu(_IObserver, _params.Updatable, ABC):
             self.Bc_Init()
             # initialize the solutions
             self.__Init_Sols_n()
+            # and whatever else the simulation keeps per element / integration point
+            self._Init_internal_state()
+
+    def _Init_internal_state(self) -> None:
+        """Resets the internal variables a simulation keeps besides its solution fields (history field, plastic state).\n
+        Called when the mesh is replaced: they belong to the elements of the previous mesh."""
+        pass
 
     @property
     def Nmesh(self) -> int:
